@@ -206,6 +206,12 @@ class PathAnalysis:
         """apply assignments in evaluation order"""
         for n in walk(stmt_e):
             k = n[0]
+            if k == "call":
+                # the call is executed (again): what an earlier execution returned says nothing about this one
+                ck = "$r:%s:%d:%d" % call_key(n)
+                tag = "%s@%d:%d" % (n[1], n[5], n[6])
+                if ck in env or any(isinstance(x, str) and x.startswith("$cmp:") and tag in x for x in env):
+                    env = {x: v for x, v in env.items() if x != ck and not (isinstance(x, str) and x.startswith("$cmp:") and tag in x)}
             if k == "asg":
                 t = strip(n[2])
                 if kind(t) == "var":
